@@ -76,6 +76,27 @@ func (fr *Frame) callIfaceContract(x ssa.CallInstruction, fullKey string, plen i
 			return Val{}
 		}
 	}
+	// call-site obligations registered by the function under verification
+	if vc := fr.vc; vc.ct != nil && vc.dry == 0 {
+		for _, cl := range vc.ct.CallSites[fullKey] {
+			lookup := func(cp ClauseParam, old bool) Val {
+				if cp.Name == "self" {
+					return TV(recv)
+				}
+				if strings.HasPrefix(cp.Name, "arg") && len(cp.Name) == 4 {
+					if k := int(cp.Name[3] - '0'); k < len(args) {
+						return args[k]
+					}
+				}
+				return fr.bindLocal(cl, cp, st)
+			}
+			g := fr.evalClauseWith(cl, lookup, st, vc.entry)
+			vc.callCount++
+			vc.curClauseProps = cl.Props
+			vc.Oblige("callsite", fmt.Sprintf("%s#%d.%s", key, vc.callCount, cl.Label), x.Pos(), st, g, cl.Src)
+			vc.curClauseProps = nil
+		}
+	}
 	return fr.callByContract(fullKey, key, ct, sig.Results(), mk, st, x.Pos())
 }
 
